@@ -16,11 +16,11 @@ def params(ctx, want, thrs, langs=None, scale=1.0):
                 thrs=thrs, want=want)
 
 
-def gen_exec_validate(ctx, prop, prm, module="Val_Streams", gen="Gen_Streams", mode="text", min_lines=1500):
+def gen_exec_validate(ctx, prop, prm, module="Val_Streams", gen="Gen_Streams", mode="text", min_lines=1500, drift=True):
     pj = ctx.path("params.json")
     json.dump(prm, open(pj, "w"), ensure_ascii=False)
     req, n = vlib.generate(ctx, gen, None, "req.ndjson", env={"PARAMS": pj})
-    return exec_validate(ctx, prop, req, module=module, mode=mode, min_lines=min_lines)
+    return exec_validate(ctx, prop, req, module=module, mode=mode, min_lines=min_lines, drift=drift)
 
 
 def exec_validate(ctx, prop, req, module="Val_Streams", mode="text", min_lines=1500, drift=True):
@@ -34,7 +34,7 @@ def exec_validate(ctx, prop, req, module="Val_Streams", mode="text", min_lines=1
         return None, obs, h
     ctx.evaluations += h["records"]
     res = vlib.validate(ctx, module, "Val.cfg", obs, trace=False, min_lines=min_lines,
-                        env={"PROP": prop, "DRIFT": "1" if drift else "0"}, heap="2500m")
+                        env={"PROP": prop, "DRIFT": ("3" if drift == 3 else "1") if drift else "0"}, heap="2500m")
     ctx.extra["drift_checked"] = ctx.extra.get("drift_checked", 0) + res.get("drift_checked", 0)
     want = {f["i"] for f in res["pbad"]}
     recs = {}
